@@ -149,13 +149,31 @@ class H:
                     # an earlier subscriber of the same signal with a tiny queue that nobody
                     # drains: it overflows at once and must not affect anybody else
                     await lstack.enter_async_context(ctx.resource_added.stream_events(max_queue_size=b["noisy_listener"] - 1))
+                early_cm = None
+                if b.get("early_leaver") is not None:
+                    # another listener that subscribed *before* the one below and leaves in
+                    # the middle of the block (overlapping, not nested, lifetimes): its
+                    # going away must not take anybody else's subscription with it
+                    early_cm = ctx.resource_added.stream_events()
+                    await early_cm.__aenter__()
                 stream = await lstack.enter_async_context(ctx.resource_added.stream_events(max_queue_size=100000))
                 try:
                     async with ctx:
                         sim.log("ctx_enter", ctx=cid)
-                        await self.acts(b.get("body", ()), cid)
+                        body = b.get("body", ())
+                        if early_cm is not None:
+                            k = min(b["early_leaver"], len(body))
+                            await self.acts(body[:k], cid)
+                            cm, early_cm = early_cm, None
+                            await cm.__aexit__(None, None, None)
+                            await self.acts(body[k:], cid)
+                        else:
+                            await self.acts(body, cid)
                         sim.log("body_end", ctx=cid)
                 finally:
+                    if early_cm is not None:
+                        with anyio.CancelScope(shield=True):
+                            await early_cm.__aexit__(None, None, None)
                     try:
                         ctx.resource_added.dispatch(ResourceEvent((), SENTINEL, None, False))
                         got_sentinel = False
@@ -1237,6 +1255,8 @@ class G:
         b: dict[str, Any] = {"id": cid, "parent": rng.choice(("implicit", "implicit", "explicit"))}
         if rng.random() < (0.3 if self.prop == "C18" else 0.08):
             b["noisy_listener"] = rng.choice((1, 2))
+        if rng.random() < 0.15:
+            b["early_leaver"] = rng.randint(0, 3)
         if len(lineage) >= 2 and rng.random() < 0.15:
             b["parent"] = "ancestor"
             b["parent_id"] = rng.choice(lineage[:-1])
